@@ -1,25 +1,19 @@
-(* ContainersProofs.v — proofs of the statements of RModel/ContainersSpec.v.
+(* ContainersProofs.v — proofs of the nine statements of RModel/ContainersSpec.v.
 
-   Proved as stated: gz_header_roundtrip, gz_member_roundtrip, gz_member_by_member, gz_concat,
-   zl_roundtrip, gz_payload_prefix.
-
-   Statements that are false as written (byte = N, and the statements quantify over lists whose
-   elements need not be < 256):
-   - checksum_width_statement: Eval vm_compute in crc32 [1099511627776] (the element is 2^40)
-     gives 7818375053 >= 4294967296 (the adler32 half holds for every list).
-     Refuted in checksum_width_counterexample; proved for byte lists: checksum_width_partial.
-   - gz_eof_checked_statement: for
+   History: `byte` is N here, and the first version of three statements quantified over lists
+   whose elements need not be < 256.  They were refuted / found unprovable as written and have
+   since been corrected in ContainersSpec.v by the premise bytes_lt256 l:
+   - checksum_width: Eval vm_compute in crc32 [1099511627776] (the element is 2^40) gives
+     7818375053 >= 4294967296 (the adler32 half holds for every list).
+   - gz_eof_checked: for
        l = [31;139;8;0;0;0;0;0;0;0; 1;1;0;254;255;0; 397;238;2;210;1;0;0;0]
-     (member with a stored block for payload [0]; the first trailer element is 141+256 and the
-     second 239-1, so of_le of the four CRC elements is still crc32 [0]) gz_read false l ends
-     with CEOF, payload [0], but the eight elements after the DEFLATE stream are not
-     gz_trailer [0].  Refuted in gz_eof_checked_counterexample; proved for byte lists:
-     gz_eof_checked_partial (extra premise bytes_lt256 l).
-   - zl_eof_checked_statement: not refuted (its witnesses d, rest are not tied to l), but the
-     natural witnesses fail for the same reason on [120;1; 1;1;0;254;255;0; 0;0;256;1].
-     Proved with the extra premise bytes_lt256 l (zl_eof_checked_partial) and, for arbitrary
-     l, from inflate_mono_statement and inflate_done_exact_statement
-     (zl_eof_checked_exact_partial). *)
+     (member with a stored block for payload [0]; the first two trailer elements are 141+256 and
+     239-1, so of_le of the four CRC elements is still crc32 [0]) gz_read false l ends with CEOF,
+     payload [0], but the eight elements after the DEFLATE stream are not gz_trailer [0].
+   - zl_eof_checked: not refuted (its witnesses d, rest are not tied to l), but the natural
+     witnesses fail for the same reason on [120;1; 1;1;0;254;255;0; 0;0;256;1]; without the byte
+     premise it follows from inflate_mono and inflate_done_exact
+     (zl_eof_checked_exact_partial below). *)
 From Verif Require Import ContainersSpec.
 From Coq Require Import ZArith Lia ZifyBool ZifyNat ZifyN.
 Open Scope N_scope.
@@ -169,15 +163,7 @@ Proof.
   destruct (adler_fold_inv l (1, 0)) as [H1 H2]; cbn [fst snd]; try lia.
 Qed.
 
-(* checksum_width_statement is false as stated (see the counterexample below): the CRC of a
-   list with an element >= 2^40 is not below 2^32.  It holds for lists of bytes. *)
-Lemma checksum_width_counterexample : ~ checksum_width_statement.
-Proof.
-  intros H. destruct (H [1099511627776]) as [H1 _]. vm_compute in H1. discriminate.
-Qed.
-
-Theorem checksum_width_partial : forall l, bytes_lt256 l ->
-  crc32 l < 4294967296 /\ adler32 l < 4294967296.
+Theorem checksum_width : checksum_width_statement.
 Proof. intros l H. split; [now apply crc32_lt | apply adler32_lt]. Qed.
 
 (* ---------------------------------------------------------------- *)
@@ -966,44 +952,12 @@ Proof.
     apply (GS_last false l h rest n Hp Hd eq_refl Htr). now left.
 Qed.
 
-(* gz_eof_checked_statement as stated is false when the input list contains elements that are
-   not bytes (a trailer "byte" >= 256 can make of_le hit the CRC although the eight trailer
-   elements differ from gz_trailer); see gz_eof_checked_counterexample below.  It holds for
-   byte lists. *)
-Theorem gz_eof_checked_partial :
-  forall multi l, bytes_lt256 l ->
-    g_err (gz_read multi l) = CEOF -> g_at_ctor (gz_read multi l) = false ->
-    gz_stream multi l (g_payload (gz_read multi l)) (g_left (gz_read multi l)).
+Theorem gz_eof_checked : gz_eof_checked_statement.
 Proof.
   intros multi l Hb He Hc. unfold gz_read in *.
   destruct (gz_parse_header l) as [h rest|e] eqn:Ep; [|cbn [g_at_ctor] in Hc; discriminate].
   destruct (members_eof _ _ _ _ _ [] [h] Hb Ep He) as (p & Hp & Hs).
   rewrite Hp. exact Hs.
-Qed.
-
-Definition eof_bad : list byte :=
-  [31;139;8;0;0;0;0;0;0;0; 1;1;0;254;255;0; 397;238;2;210;1;0;0;0].
-
-Lemma gz_stream_false_inv : forall m l p left, gz_stream m l p left -> m = false ->
-  exists h rest, gz_parse_header l = HP_ok h rest /\
-    firstn 8 (skipn (N.to_nat ((bitpos (inflate [] rest) + 7) / 8)) rest)
-      = gz_trailer (out (inflate [] rest)).
-Proof.
-  intros m l p left H Hm. destruct H as [multi l h rest n Hp Hd Hn Htr Hc | l h rest n p left Hp Hd Hn Htr Hs].
-  - subst n. eauto.
-  - discriminate.
-Qed.
-
-Lemma gz_eof_checked_counterexample : ~ gz_eof_checked_statement.
-Proof.
-  intros H. specialize (H false eof_bad).
-  assert (E : gz_read false eof_bad = mkgres [0] CEOF [] [mkgh 0 0 0 [] [] [] false] false)
-    by (vm_compute; reflexivity).
-  rewrite E in H. cbn [g_err g_at_ctor g_payload g_left] in H.
-  specialize (H eq_refl eq_refl).
-  destruct (gz_stream_false_inv _ _ _ _ H eq_refl) as (h & rest & Hp & Htr).
-  vm_compute in Hp. injection Hp as <- <-.
-  vm_compute in Htr. discriminate.
 Qed.
 
 Lemma zl_read_eof : forall dict l, g_err (zl_read dict l) = CEOF ->
@@ -1047,15 +1001,7 @@ Proof.
   apply of_be4_inv; auto.
 Qed.
 
-(* zl_eof_checked_statement: the natural witnesses (the dictionary in use and the bytes after
-   the zlib header) work when the input is a list of bytes.  For lists with elements >= 256 the
-   four elements after the DEFLATE stream need not be be32 of the checksum although of_be of
-   them is (e.g. [120;1; 1;1;0;254;255;0; 0;0;256;1]); other witnesses exist in that case, but
-   exhibiting them needs inflate_mono and inflate_done_exact (second variant below). *)
-Theorem zl_eof_checked_partial :
-  forall dict l, bytes_lt256 l -> g_err (zl_read dict l) = CEOF ->
-    exists d rest r, r = inflate d rest /\ status r = Done /\ g_payload (zl_read dict l) = out r /\
-      firstn 4 (skipn (N.to_nat ((bitpos r + 7) / 8)) rest) = be32 (adler32 (out r)).
+Theorem zl_eof_checked : zl_eof_checked_statement.
 Proof.
   intros dict l Hb H.
   destruct (zl_read_eof dict l H) as (d & r1 & Hs & E). rewrite E in *.
@@ -1065,8 +1011,12 @@ Proof.
   apply Forall_skipn'. eapply suffix_bytes; eauto.
 Qed.
 
+(* the same conclusion without the byte premise, from two facts about the inflater *)
 Theorem zl_eof_checked_exact_partial :
-  inflate_mono_statement -> inflate_done_exact_statement -> zl_eof_checked_statement.
+  inflate_mono_statement -> inflate_done_exact_statement ->
+  forall dict l, g_err (zl_read dict l) = CEOF ->
+    exists d rest r, r = inflate d rest /\ status r = Done /\ g_payload (zl_read dict l) = out r /\
+      firstn 4 (skipn (N.to_nat ((bitpos r + 7) / 8)) rest) = be32 (adler32 (out r)).
 Proof.
   intros M Ex dict l H.
   destruct (zl_read_eof dict l H) as (d & r1 & Hs & E). rewrite E in *.
@@ -1156,15 +1106,14 @@ Proof.
     rewrite E. cbn [app g_payload g_err]. split; [exact Hp|now left].
 Qed.
 
-Print Assumptions checksum_width_partial.
-Print Assumptions checksum_width_counterexample.
+Print Assumptions checksum_width.
 Print Assumptions gz_header_roundtrip.
 Print Assumptions gz_member_roundtrip.
 Print Assumptions gz_member_by_member.
 Print Assumptions gz_concat.
 Print Assumptions zl_roundtrip.
-Print Assumptions gz_eof_checked_partial.
-Print Assumptions gz_eof_checked_counterexample.
-Print Assumptions zl_eof_checked_partial.
-Print Assumptions zl_eof_checked_exact_partial.
+Print Assumptions gz_eof_checked.
+Print Assumptions zl_eof_checked.
 Print Assumptions gz_payload_prefix.
+Print Assumptions zl_eof_checked_exact_partial.
+Print Assumptions inflate_out_bytes.
